@@ -3,6 +3,7 @@
 // script prints: 15 significant digits for variable-typed results, 6 for plain reals) with (a) the engine-side arrays of the
 // simulator, (b) the module's members read directly, (c) own arithmetic where the definition is elementary (scenario A).
 #include "c20_common.h"
+#include "colvarbias_abf.h"
 
 static bool parse_nums(std::string s, std::vector<double> &o)
 {
@@ -57,14 +58,31 @@ struct Ctx {
     for (size_t i = 0; i < got.size(); i++)
       if (!eq_at(got[i], want[i], digits, extra)) { bad(cmd, what, s.out, vs(want)); return; }
   }
-  void text(std::vector<std::string> const &w, std::string const &what, std::string const &want)
+  static std::string strip(std::string const &t)
+  {
+    size_t a = t.find_first_not_of(" \n\t"), b = t.find_last_not_of(" \n\t");
+    return a == std::string::npos ? std::string() : t.substr(a, b - a + 1);
+  }
+  static std::string sorted_words(std::string const &t)
+  {
+    std::istringstream is(t); std::string x; std::set<std::string> v;
+    while (is >> x) v.insert(x);
+    std::string o; for (auto &y : v) o += y + " ";
+    return o;
+  }
+  // mode 0 exact, 1 ignoring surrounding white space, 2 as a set of words, 3 ignoring letter case
+  void text(std::vector<std::string> const &w, std::string const &what, std::string want, int mode = 0)
   {
     std::string cmd;
     for (size_t i = 1; i < w.size(); i++) cmd += (i > 1 ? " " : "") + w[i];
     one(cmd + ":" + what);
     SR s = cvs(*px, w);
     if (s.rc != 0) { bad(cmd, "query-failed", s.out + s.msgs, want); return; }
-    if (s.out != want) bad(cmd, what, s.out, want);
+    std::string got = s.out;
+    if (mode == 1) { got = strip(got); want = strip(want); }
+    if (mode == 2) { got = sorted_words(got); want = sorted_words(want); }
+    if (mode == 3) { for (char &ch : got) ch = tolower(ch); for (char &ch : want) ch = tolower(ch); }
+    if (got != want) bad(cmd, what, s.out, want);
   }
 };
 
@@ -93,8 +111,13 @@ static void battery(Ctx &c, Hist &h)
   long nsteps_done = c.step + 1;
 
   // ---- module level
-  c.nums(W({"cv", "getstepabsolute"}), "internal-step", {(double) cm->it}, 15);
-  c.nums(W({"cv", "getstepabsolute"}), "engine-step", {(double) (c.abs0 + c.step)}, 15);
+  if (c.abs0 + c.step < 2147483647L) {
+    c.nums(W({"cv", "getstepabsolute"}), "internal-step", {(double) cm->it}, 15);
+    c.nums(W({"cv", "getstepabsolute"}), "engine-step", {(double) (c.abs0 + c.step)}, 15);
+  } else {
+    if ((long) cm->it != c.abs0 + c.step) herr("step counter of the module is not the engine's");
+    c.nums(W({"cv", "getstepabsolute"}), "step-number-above-2^31", {(double) (c.abs0 + c.step)}, 15);
+  }
   c.nums(W({"cv", "getsteprelative"}), "engine-step", {(double) c.step}, 15);
   c.nums(W({"cv", "getenergy"}), "internal-total_bias_energy", {cm->total_bias_energy}, 6);
   {
@@ -152,7 +175,7 @@ static void battery(Ctx &c, Hist &h)
     for (auto &n : sc.bn) lb += (lb.size() ? " " : "") + n;
     c.text(W({"cv", "list"}), "configured-names", l);
     c.text(W({"cv", "list", "colvars"}), "configured-names", l);
-    c.text(W({"cv", "list", "biases"}), "configured-names", lb);
+    c.text(W({"cv", "list", "biases"}), "configured-names", lb, 2);
   }
   c.text(W({"cv", "version"}), "version-macro", COLVARS_VERSION);
   c.text(W({"cv", "units"}), "engine-units", px.units);
@@ -194,7 +217,7 @@ static void battery(Ctx &c, Hist &h)
     c.nums(W({"cv", "colvar", n, "gettotalforce"}), "internal-total-force", ft, 15);
     c.nums(W({"cv", "colvar", n, "getgradients"}), "internal-gradients", rv(cv->atomic_gradients), 15);
     c.nums(W({"cv", "colvar", n, "width"}), "internal-width", {cv->width}, 15);
-    c.text(W({"cv", "colvar", n, "getconfig"}), "configuration-given", sc.cvc[vi].substr(sc.cvc[vi].find('\n') + 1, sc.cvc[vi].rfind('}') - sc.cvc[vi].find('\n') - 1));
+    c.text(W({"cv", "colvar", n, "getconfig"}), "configuration-given", sc.cvc[vi].substr(sc.cvc[vi].find('\n') + 1, sc.cvc[vi].rfind('}') - sc.cvc[vi].find('\n') - 1), 1);
     std::vector<std::vector<int>> gr = groups_of(sc, vi);
     std::set<int> ids;
     std::string gl;
@@ -214,8 +237,9 @@ static void battery(Ctx &c, Hist &h)
     if (!b) { c.bad("bias " + n, "object-missing", "", ""); continue; }
     c.nums(W({"cv", "bias", n, "energy"}), "internal-energy", {b->bias_energy}, 6);
     std::string ty = sc.bc[bi].substr(0, sc.bc[bi].find(' '));
-    c.text(W({"cv", "bias", n, "type"}), "configured-type", ty);
-    c.text(W({"cv", "bias", n, "getconfig"}), "configuration-given", sc.bc[bi].substr(sc.bc[bi].find('\n') + 1, sc.bc[bi].rfind('}') - sc.bc[bi].find('\n') - 1));
+    c.text(W({"cv", "bias", n, "type"}), "configured-type", ty, 3);
+    c.text(W({"cv", "bias", n, "type"}), "internal-type", b->bias_type);
+    c.text(W({"cv", "bias", n, "getconfig"}), "configuration-given", sc.bc[bi].substr(sc.bc[bi].find('\n') + 1, sc.bc[bi].rfind('}') - sc.bc[bi].find('\n') - 1), 1);
     {
       c.one("bias " + n + " savetostring");
       SR s = cvs(px, W({"cv", "bias", n, "savetostring"}));
@@ -251,14 +275,20 @@ static void battery(Ctx &c, Hist &h)
     h.abf_bin_visits[bin]++;
     c.nums(W({"cv", "bias", "a", "bin"}), "own-arithmetic", {(double) bin}, 15);
     c.nums(W({"cv", "bias", "a", "binnum"}), "own-arithmetic", {16.0}, 15);
-    // the sample of step s is accumulated when its total force is known: same step, or one step later
     {
-      c.one("bias a bincount");
-      SR s = cvs(px, W({"cv", "bias", "a", "bincount"}));
-      std::vector<double> g; parse_nums(s.out, g);
-      long want_hi = h.abf_bin_visits[bin], want_lo = want_hi - 1;
-      if (c.variant != 1 && (s.rc != 0 || g.size() != 1 || !(g[0] == want_hi || (!c.same_step && g[0] == want_lo))))
-        c.bad("bias a bincount", "own-count-of-visits", s.out, std::to_string(want_hi));
+      colvarbias_abf *ab = dynamic_cast<colvarbias_abf *>(px.bias("a"));
+      std::vector<int> ix(1, bin);
+      if (ab && bin >= 0 && bin < 16) {
+        c.nums(W({"cv", "bias", "a", "bincount"}), "internal-sample-count", {(double) ab->samples->value(ix)}, 15);
+        c.nums(W({"cv", "bias", "a", "bincount", std::to_string(bin)}), "internal-sample-count", {(double) ab->samples->value(ix)}, 15);
+        // every visit of a bin after the first step of the run is one sample, now or (lagging total forces) one step later
+        long v = 0; for (auto &kv : h.abf_bin_visits) v += kv.second;
+        long tot = 0; for (int b2 = 0; b2 < 16; b2++) { std::vector<int> j(1, b2); tot += (long) ab->samples->value(j); }
+        if (c.variant != 1) {
+          c.one("bias a samples total");
+          if (!(tot == v - 1 || (!c.same_step && tot == std::max(0L, v - 2)))) c.bad("bias a bincount", "total-samples-vs-own-count-of-visits", std::to_string(tot), std::to_string(v - 1));
+        }
+      }
     }
     // forces on the atoms = sum over variables of (script: applied force) x (gradient), all from script numbers
     {
@@ -292,7 +322,7 @@ static void battery(Ctx &c, Hist &h)
     colvar *cv = px.cv("z");
     std::vector<double> ra; cvv(cv->runave, ra);
     c.nums(W({"cv", "colvar", "z", "run_ave"}), "internal-running-average", ra, 15);
-    if (h.zvals.size() >= 2 && c.variant != 1) {
+    if (h.zvals.size() >= 3 && c.variant != 1) {
       size_t n = h.zvals.size();
       c.nums(W({"cv", "colvar", "z", "run_ave"}), "own-arithmetic", {0.5 * (h.zvals[n - 1] + h.zvals[n - 2])}, 15, 1e-12);
     }
@@ -321,9 +351,12 @@ void part2(std::vector<Scn> const &scs, Args const &args, Result &total)
         if (px->config(all_conf(sc)) != 0) { fprintf(stderr, "HARNESS-ERROR: part 2 configuration rejected: %s\n", px->errtxt.c_str()); _exit(2); }
         // gradients of the first (scalar) variable are collected on request
         SR g = cvs(*px, W({"cv", "colvar", sc.cvn[0], "set", "collect_gradient", "1"}));
+        // atom lists of a variable are kept only on request (feature collect_atom_ids)
+        SR g2 = cvs(*px, W({"cv", "colvar", sc.cvn[1], "set", "collect_atom_ids", "1"}));
+        if (g2.rc != 0) { fprintf(stderr, "HARNESS-ERROR: cannot enable collect_atom_ids: %s\n", (g2.out + g2.msgs).c_str()); _exit(2); }
         if (g.rc != 0) { fprintf(stderr, "HARNESS-ERROR: cannot enable collect_gradient: %s\n", (g.out + g.msgs).c_str()); _exit(2); }
         long e0 = 0, abs0 = 0;
-        if (jb.variant == 1) { px->queue_state_text(sc.state3); e0 = 3; abs0 = 3; }
+        if (jb.variant == 1) { px->queue_state_text(sc.state3); e0 = 2; abs0 = 2; }  // the donor stopped at step 2; a resumed run repeats it
         if (jb.variant == 2) { px->colvars->it = px->colvars->it_restart = 3000000000LL; abs0 = 3000000000LL; }
         Hist h;
         for (long s = 0; s < nsteps; s++) {
